@@ -531,8 +531,12 @@ def c09(ctx):
     lic = [x for x in t["active"] + t["deprecated"] if not x.endswith("+")]
     exc = list(t["exceptions"])
     if quick:
-        lic = rng.sample(lic, 220)
-        exc = rng.sample(exc, 30)
+        ends = [t["active"][0], t["active"][-1], t["deprecated"][0], t["deprecated"][-1]]
+        lic = list(dict.fromkeys([x for x in ends if not x.endswith("+")] + rng.sample(lic, 220)))
+        exc = list(dict.fromkeys([t["exceptions"][0], t["exceptions"][-1]] + rng.sample(exc, 30)))
+        longest = sorted(t["active"] + t["deprecated"], key=len)[-3:]
+        lic = list(dict.fromkeys(lic + [x for x in longest if not x.endswith("+")]))
+        exc = list(dict.fromkeys(exc + sorted(t["exceptions"], key=len)[-2:]))
     p1, p2 = rng.sample(roles.unranged, 2)
     if quick:
         # keep every listed -only / -or-later id and every family member in the sample
@@ -602,6 +606,8 @@ def lex_vocab(ctx, rng, focus="all"):
     add(unknown, "unknown")
     if focus != "core":
         add("Unknown-" + "x1.y2-" * 9 + "z", "unknown")     # an unknown id of 63 bytes
+        add("U" + "n0-" * 21, "unknown")                      # 64 bytes
+        add("Q" + "w.9" * 10 + "z", "unknown")                # 32 bytes
     add("LicenseRef-a", "LR", "a")
     add("DocumentRef-d", "DR", "d")
     for o in [":", "(", ")", "AND", "OR", "WITH"]:
@@ -653,7 +659,8 @@ def offset_prefixes(ctx, rng):
     E = rng.choice(t["exceptions"])
     return ["", A + " AND ", "(" + A + ") OR ", "(" + A + " AND ", A + " WITH " + E + " AND ", "  " + A + "  AND  ", G + " AND ",
             p3 + "+ OR (", A + " AND " + B + " OR ", A + " AND (" + B + ") AND ", "(" + A + " OR " + B + ") AND ", "(" + A + ")OR(",
-            "DocumentRef-d:LicenseRef-a AND ", p3 + "-only AND ", A.lower() + " AND ", B + " OR " + A + " WITH "]
+            "DocumentRef-d:LicenseRef-a AND ", p3 + "-only AND ", A.lower() + " AND ", B + " OR " + A + " WITH ",
+            A + " AND " + B + " AND " + p3 + "-or-later OR ", G + " OR " + G.lower() + " AND " + A + " OR "]
 
 
 # --------------------------------------------------------------------------- C12
@@ -694,7 +701,16 @@ def perturbed_configuration(ctx):
         lo = rng.randrange(0, len(items) - 30)
         items[lo:lo + 25] = reversed(items[lo:lo + 25])
         items.extend(tail)
-        moved[key] = [x[idk] for x in tail]
+        # ... and entries a future refresh might bring: new ids at the end and in the middle, one of them deprecated
+        proto = dict(tail[0])
+        new = []
+        for nid, dep, at in (("Zzz-Future-1.0", False, len(items)), ("AAA-Future-2.0", False, 0), ("Mid-Future-0.9", key == "licenses", len(items) // 2)):
+            ent = dict(proto)
+            ent[idk] = nid if key == "licenses" else nid + "-exception"
+            ent["isDeprecatedLicenseId"] = dep
+            items.insert(at, ent)
+            new.append(ent[idk])
+        moved[key] = [x[idk] for x in tail] + new
         with open(path, "w") as fh:
             json.dump(data, fh)
     p = subprocess.run(["go", "run", ".", "extract", "-l", "-e"], cwd=os.path.join(g, "cmd"), env=GOENV, capture_output=True, text=True, timeout=600)
